@@ -118,7 +118,8 @@ def random_resp(rng, sc, prep_attempt, weights=None, tagger=None):
         if c < 0.45:
             return [2, myid]
         if c < 0.6:
-            return [2, myid + rng.choice([1, -1])]
+            others = [k[0] for k in sc.get('known', []) if k[0] != myid]      # another cached statement's id
+            return [2, rng.choice(others) if others and rng.random() < 0.6 else myid + rng.choice([1, -1])]
         if c < 0.75:
             return [3, rng.choice([7, 8, 3, 6]), tag]
         return rng.choice([[0], [1], [4, myid, tag], [5, tag], [6, tag], [7]])
@@ -149,6 +150,8 @@ def random_scenario(rng, weights=None, max_hosts=4, max_ops=14, env_changes=True
         sc['pidem'] = rng.random() < 0.5
     if rng.random() < 0.5:
         sc['known'] = [[7, rng.choice([3, 4]), rng.choice([None, 1, 2])]]
+        if rng.random() < 0.5:       # the same text prepared under another keyspace: a second cached id
+            sc['known'].append([rng.choice([6, 8]), 3, rng.choice([1, 2])])
     sc['script'] = [[rng.choice([0, 0, 3, 3, 1, 2]), rng.choice([None, None, 0, 0] + list(range(11)))] for _ in range(8)]
     return sc
 
